@@ -32,8 +32,16 @@ RULE = ('graph.filter: every hand-written spec under harness/specs/graph_* and g
         'filtered Api vs model (types, routes, aliases), vs the reference closure computed on the unfiltered Api '
         '(whitelisted kept, closed, nothing outside), dangling-reference scan of the filtered Api, python_types of the '
         'filtered Api imported in a fresh interpreter (judged when the full Api imports). A case is non-trivial when '
-        'the filter removes at least one data type or route and keeps at least one. graph.linearize / graph.allfields: '
-        'the same specs, namespace lists in sorted and in shuffled order.')
+        'the filter removes at least one data type or route and keeps at least one. Edge grid (suite_edge_grid): generated '
+        'two-namespace specs in which one root route per case is connected to its target types by exactly one edge - a field '
+        'type in 20 written shapes (bare, nullable, List / Map nestings, aliases of and around them, aliases declared in the '
+        'other namespace) x struct / union holder x same / other namespace; the three positions of a route signature x the same '
+        'shapes; two versions of a route; parents, grandparents, union parents, tag defaults (also through an alias), roots / '
+        'leaves of subtype trees (open and closed); doc references :type: / :field: / :route: / :route: with a version written in '
+        'the doc of a struct, union, field, void tag, union member, alias, route, inherited field, subtype field, parent, a '
+        'struct reached through Map(List(..?)), a result type, of the namespace - each root route whitelisted alone, "*", a few '
+        'data types alone; real IRGenerator on the once-parsed files (a sample and every failure again through specs_to_ir). '
+        'graph.linearize / graph.allfields: the hand-written and generated specs, namespace lists in sorted and in shuffled order.')
 
 _counter = itertools.count()
 
@@ -411,6 +419,15 @@ def dangling_scan(api):
                 for u in mentions(getattr(r, part + '_data_type')):
                     if id(u) not in kept:
                         bad.append(('route-' + part, rid(ns.name, r), tid(u)))
+        # the same through the accessor backends use for the types of route signatures
+        try:
+            io = ns.get_route_io_data_types()
+        except Exception:      # noqa: BLE001 - not a matter of the filter (a Map in a signature has no name to sort by ...)
+            io = []
+        for t in io:
+            for u in mentions(t):
+                if id(u) not in kept:
+                    bad.append(('route-io', ns.name, tid(u)))
     return bad
 
 
@@ -1023,6 +1040,466 @@ def _compare_with_model(ck, env, kinds, pending, rep):
 def _brief(x):
     s = json.dumps(x, sort_keys=True, default=repr)
     return s if len(s) < 1500 else s[:1500] + '…'
+
+
+# ----------------------------------------------------------------------------------------------
+# edge grid: every kind of dependency edge x every shape it can be written in x every kind of holder, one at a time
+# ----------------------------------------------------------------------------------------------
+
+GRID_WRAPS = [
+    ('bare', '%s', None), ('nullable', '%s?', None), ('list', 'List(%s)', None), ('list-nullable', 'List(%s)?', None),
+    ('list-of-nullable', 'List(%s?)', None), ('list-list', 'List(List(%s))', None), ('map', 'Map(String, %s)', None),
+    ('map-nullable', 'Map(String, %s)?', None), ('map-of-list', 'Map(String, List(%s))', None),
+    ('list-of-map', 'List(Map(String, %s))', None), ('map-of-map', 'Map(String, Map(String, %s?))', None),
+    # (name, field type, alias declarations; {x} = case number, %s = target)
+    ('alias', 'X{x}', 'alias X{x} = %s\n'), ('alias-nullable', 'X{x}', 'alias X{x} = %s?\n'),
+    ('nullable-alias', 'X{x}?', 'alias X{x} = %s\n'), ('alias-of-list', 'X{x}', 'alias X{x} = List(%s)\n'),
+    ('alias-of-map', 'X{x}', 'alias X{x} = Map(String, %s)\n'), ('list-of-alias', 'List(X{x})', 'alias X{x} = %s\n'),
+    ('map-of-alias', 'Map(String, X{x})', 'alias X{x} = %s\n'),
+    ('alias-of-alias', 'Y{x}', 'alias X{x} = %s\nalias Y{x} = X{x}\n'),
+    ('alias-of-list-of-alias', 'Y{x}', 'alias X{x} = %s\nalias Y{x} = List(X{x}?)\n'),
+]
+
+
+class _Grid:
+    """collects, case by case, the text of the namespaces ga (holders, root routes) and gb (imported by ga)"""
+
+    def __init__(self, family):
+        self.family = family
+        self.cases = []           # [(ga lines, gb lines)]
+
+    def new(self):
+        self.cases.append(([], []))
+        return len(self.cases)
+
+    @property
+    def ga(self):
+        return self.cases[-1][0]
+
+    @property
+    def gb(self):
+        return self.cases[-1][1]
+
+    def target(self, x, foreign, name='T', kind='struct'):
+        """declare the target type; how ga writes it"""
+        text = ('struct %s%d\n    v Int32\n\n' if kind == 'struct' else 'union %s%d\n    v\n    w Int32\n\n') % (name, x)
+        (self.gb if foreign else self.ga).append(text)
+        return ('gb.%s%d' if foreign else '%s%d') % (name, x)
+
+    def specs(self, chunk):
+        """the cases, `chunk` to a spec (the cost of one filter run grows with the size of the spec)"""
+        out = []
+        for k in range(0, len(self.cases), chunk):
+            part = self.cases[k:k + chunk]
+            ga = 'namespace ga\n\nimport gb\n\n' + ''.join(''.join(a) for a, _b in part)
+            gb = 'namespace gb\n\nstruct Unused\n    u Int32\n\n' + ''.join(''.join(b) for _a, b in part)
+            out.append(('grid:%s/%d' % (self.family, k // chunk), [('ga.stone', ga), ('gb.stone', gb)]))
+        return out
+
+
+def _wrap(wrap, x, ref, g, alias_foreign=False):
+    """field type text for target `ref` in wrap `wrap`; alias declarations go to ga (or, alias_foreign, to gb:
+    then the target must be a gb type and is written without prefix there)"""
+    _n, ty, decl = wrap
+    if decl is None:
+        return ty % ref
+    if alias_foreign:
+        g.gb.append(decl.replace('{x}', str(x)) % ref.split('.', 1)[1] + '\n')
+        return ty.replace('X{x}', 'gb.X{x}').replace('Y{x}', 'gb.Y{x}').replace('{x}', str(x))
+    g.ga.append(decl.replace('{x}', str(x)) % ref + '\n')
+    return ty.replace('{x}', str(x))
+
+
+def edge_grid_specs(chunk=12):
+    """[(label 'grid:<family>', specs)]: in every case one root route r<x> whose only connection to the target
+    type(s) of the case is the edge the case is about"""
+    out = []
+    # -- field types, by holder kind
+    for holder in ('struct', 'union'):
+        for foreign in (False, True):
+            g = _Grid('field-%s-%s' % (holder, 'foreign' if foreign else 'same'))
+            for wrap in GRID_WRAPS:
+                x = g.new()
+                ref = g.target(x, foreign)
+                ty = _wrap(wrap, x, ref, g)
+                g.ga.append(('struct A%d\n    f %s\n\n' if holder == 'struct' else 'union A%d\n    n\n    f %s\n\n') % (x, ty))
+                g.ga.append('route r%d (A%d, Void, Void)\n\n' % (x, x))
+            out += g.specs(chunk)
+    # -- aliases declared in the other namespace
+    g = _Grid('field-foreign-alias')
+    for wrap in GRID_WRAPS:
+        if wrap[2] is None:
+            continue
+        x = g.new()
+        ref = g.target(x, True)
+        ty = _wrap(wrap, x, ref, g, alias_foreign=True)
+        g.ga.append('struct A%d\n    f %s\n\n' % (x, ty))
+        g.ga.append('route r%d (A%d, Void, Void)\n\n' % (x, x))
+    out += g.specs(chunk)
+    # -- route signatures
+    for foreign in (False, True):
+        g = _Grid('route-%s' % ('foreign' if foreign else 'same'))
+        for slot in range(3):
+            for wrap in GRID_WRAPS:
+                if wrap[0] in ('list-list', 'map-of-map', 'alias-of-list-of-alias') and slot != 1:
+                    continue
+                x = g.new()
+                ref = g.target(x, foreign, kind='union' if slot == 2 else 'struct')
+                ty = _wrap(wrap, x, ref, g)
+                sig = ['Void', 'Void', 'Void']
+                sig[slot] = ty
+                g.ga.append('route r%d (%s)\n\n' % (x, ', '.join(sig)))
+        x = g.new()      # versions of one route with different signatures
+        a, b = g.target(x, foreign, 'T'), g.target(x, foreign, 'V')
+        g.ga.append('route r%d (%s, Void, Void)\n\nroute r%d:2 (%s, Void, Void)\n\n' % (x, a, x, b))
+        out += g.specs(chunk)
+    # -- parents, subtypes, tag defaults
+    g = _Grid('inheritance')
+    for foreign in (False, True):
+        x = g.new()                                    # parent
+        ref = g.target(x, foreign)
+        g.ga.append('struct A%d extends %s\n    a Int32\n\nroute r%d (A%d, Void, Void)\n\n' % (x, ref, x, x))
+        x = g.new()                                    # grandparent with a field type of its own
+        (g.gb if foreign else g.ga).append('struct L%d\n    l Int32\n\nstruct G%d\n    g L%d\n\nstruct T%d extends G%d\n    v Int32\n\n' % (x, x, x, x, x))
+        g.ga.append('struct A%d extends %sT%d\n    a Int32\n\nroute r%d (List(A%d), Void, Void)\n\n' % (x, 'gb.' if foreign else '', x, x, x))
+        x = g.new()                                    # union parent
+        ref = g.target(x, foreign, kind='union')
+        g.ga.append('union A%d extends %s\n    a\n\nroute r%d (Void, Void, A%d)\n\n' % (x, ref, x, x))
+        x = g.new()                                    # tag default: the union, and what the union's members mention
+        ns = g.gb if foreign else g.ga
+        ns.append('struct W%d\n    w Int32\n\nunion U%d\n    t\n    m W%d\n\n' % (x, x, x))
+        g.ga.append('struct A%d\n    f %sU%d = t\n\nroute r%d (A%d, Void, Void)\n\n' % (x, 'gb.' if foreign else '', x, x, x))
+        x = g.new()                                    # tag default through an alias of the union
+        ns.append('union U%d\n    t\n    m Int32\n\n' % x)
+        g.ga.append('alias X%d = %sU%d\n\nstruct A%d\n    f X%d = t\n\nroute r%d (A%d, Void, Void)\n\n' % (x, 'gb.' if foreign else '', x, x, x, x, x))
+    x = g.new()                                        # root of a tree: subtypes and what they mention
+    g.ga.append('struct A%d\n    union\n        s S%d\n        s2 Q%d\n    a Int32\n\nstruct S%d extends A%d\n    f L%d\n\n'
+                'struct Q%d extends A%d\n    q List(M%d)?\n\nstruct L%d\n    l Int32\n\nstruct M%d\n    m Int32\n\n'
+                'route r%d (A%d, Void, Void)\n\n' % ((x,) * 13))
+    x = g.new()                                        # a leaf of a tree: the root, the siblings and what they mention
+    g.ga.append('struct B%d\n    union_closed\n        s S%d\n        s2 Q%d\n    b M%d?\n\nstruct S%d extends B%d\n    f Int32\n\n'
+                'struct Q%d extends B%d\n    q Map(String, L%d)\n\nstruct L%d\n    l Int32\n\nstruct M%d\n    m Int32\n\n'
+                'route r%d (Void, S%d, Void)\n\n' % ((x,) * 13))
+    out += g.specs(chunk)
+    # -- doc references: where the doc sits x what it mentions
+    for foreign in (False, True):
+        g = _Grid('docs-%s' % ('foreign' if foreign else 'same'))
+        p = 'gb.' if foreign else ''
+
+        def mention(x, tag):
+            """(doc text, declarations) for a reference of kind `tag` to something of case x"""
+            ns = g.gb if foreign else g.ga
+            if tag == 'type':
+                ns.append('struct T%d\n    v L%d\n\nstruct L%d\n    l Int32\n\n' % (x, x, x))
+                return 'See :type:`%sT%d`.' % (p, x)
+            if tag == 'union':
+                ns.append('union T%d\n    v\n    m L%d\n\nstruct L%d\n    l Int32\n\n' % (x, x, x))
+                return 'See :type:`%sT%d`.' % (p, x)
+            if tag == 'field':
+                # (a reference with a namespace, :field:`gb.T.v`, makes the filter raise: listed finding, kept out)
+                g.ga.append('struct T%d\n    v Int32\n\n' % x)
+                return 'See :field:`T%d.v`.' % x
+            if tag == 'route':
+                ns.append('struct T%d\n    v Int32\n\nstruct E%d\n    e Int32\n\nroute m%d (Void, List(T%d), E%d?)\n\n' % (x, x, x, x, x))
+                return 'See :route:`%sm%d`.' % (p, x)
+            if tag == 'route-v2':
+                ns.append('struct T%d\n    v Int32\n\nstruct V%d\n    e Int32\n\nroute m%d (T%d, Void, Void)\n\n'
+                          'route m%d:2 (V%d, Void, Void)\n\n' % (x, x, x, x, x, x))
+                return 'See :route:`%sm%d:2`.' % (p, x)
+            raise ValueError(tag)
+
+        for tag in ('type', 'union', 'field', 'route', 'route-v2'):
+            if foreign and tag == 'field':
+                continue
+            for where in ('struct', 'union', 'field', 'void-tag', 'member', 'alias', 'route', 'inherited-field', 'subtype-field',
+                          'parent', 'nested-field', 'result-field'):
+                x = g.new()
+                doc = '"%s"' % mention(x, tag)
+                if where == 'struct':
+                    body = 'struct A%d\n    %s\n    a Int32\n\nroute r%d (A%d, Void, Void)\n\n' % (x, doc, x, x)
+                elif where == 'union':
+                    body = 'union A%d\n    %s\n    a\n\nroute r%d (A%d, Void, Void)\n\n' % (x, doc, x, x)
+                elif where == 'field':
+                    body = 'struct A%d\n    a Int32\n        %s\n\nroute r%d (A%d, Void, Void)\n\n' % (x, doc, x, x)
+                elif where == 'void-tag':
+                    body = 'union A%d\n    a\n        %s\n    b Int32\n\nroute r%d (A%d, Void, Void)\n\n' % (x, doc, x, x)
+                elif where == 'member':
+                    body = 'union A%d\n    a\n    b Int32\n        %s\n\nroute r%d (Void, Void, A%d)\n\n' % (x, doc, x, x)
+                elif where == 'alias':
+                    body = 'alias X%d = Int32\n    %s\n\nstruct A%d\n    a X%d\n\nroute r%d (A%d, Void, Void)\n\n' % (x, doc, x, x, x, x)
+                elif where == 'route':
+                    body = 'route r%d (Void, Void, Void)\n    %s\n\n' % (x, doc)
+                elif where == 'inherited-field':
+                    body = ('struct B%d\n    b Int32\n        %s\n\nstruct A%d extends B%d\n    a Int32\n\n'
+                            'route r%d (A%d, Void, Void)\n\n' % (x, doc, x, x, x, x))
+                elif where == 'subtype-field':
+                    body = ('struct A%d\n    union\n        s S%d\n    a Int32\n\nstruct S%d extends A%d\n    f Int32\n        %s\n\n'
+                            'route r%d (A%d, Void, Void)\n\n' % (x, x, x, x, doc, x, x))
+                elif where == 'parent':
+                    body = ('struct B%d\n    %s\n    b Int32\n\nstruct A%d extends B%d\n    a Int32\n\n'
+                            'route r%d (A%d, Void, Void)\n\n' % (x, doc, x, x, x, x))
+                elif where == 'nested-field':
+                    body = ('struct N%d\n    n Int32\n        %s\n\nstruct A%d\n    a Map(String, List(N%d?))\n\n'
+                            'route r%d (A%d, Void, Void)\n\n' % (x, doc, x, x, x, x))
+                else:
+                    body = ('struct A%d\n    a Int32\n        %s\n\nroute r%d (Void, A%d?, Void)\n\n' % (x, doc, x, x))
+                g.ga.append(body)
+        out += g.specs(chunk)
+    # -- the doc of a namespace named in the whitelist
+    ga = ('namespace ga\n    "Start with :type:`Intro` and :route:`hello`; see :type:`gb.Far` and :field:`Intro.i`."\n\nimport gb\n\n'
+          'struct Intro\n    i Int32\n\nstruct HelloArg\n    h Int32\n\nstruct Other\n    o Int32\n\nstruct Quiet\n    q Int32\n\n'
+          'route hello (HelloArg, Void, Void)\n\nroute another (Other, Void, Void)\n\nroute noop (Void, Void, Void)\n\n')
+    gb = ('namespace gb\n    "See :type:`FarDoc`."\n\nstruct Far\n    f Int32\n\nstruct FarDoc\n    f Int32\n\nstruct Unused\n    u Int32\n\n'
+          'route reach (Far, Void, Void)\n\n')
+    out.append(('grid:namespace-doc', [('ga.stone', ga), ('gb.stone', gb)]))
+    return out
+
+
+def plan_grid(rng, env, full=False):
+    """every route alone (both spellings of version 1 in turn), "*" for the namespace of the holders; a few data types
+    alone, a pair of routes, the namespaces alone (all of them with `full`)"""
+    api = env.api
+    out = []
+    for ns in api.namespaces.values():
+        for i, r in enumerate(ns.routes):
+            out.append(('single-route', {'route_whitelist': {ns.name: [route_repr(rng, r.name, r.version, ('bare', 'v1')[i % 2])]},
+                                         'datatype_whitelist': {}}))
+        types = list(ns.data_types)
+        rng.shuffle(types)
+        for d in types[:len(types) if full else 2]:
+            out.append(('single-type', {'route_whitelist': {}, 'datatype_whitelist': {ns.name: [d.name]}}))
+        if full or ns.name == 'ga':
+            if ns.routes:
+                out.append(('star-one', {'route_whitelist': {ns.name: ['*']}, 'datatype_whitelist': {}}))
+            out.append(('ns-only', {'route_whitelist': {ns.name: []}, 'datatype_whitelist': {}}))
+        if full or ns.doc:
+            out.append(('ns-only-types', {'route_whitelist': {}, 'datatype_whitelist': {ns.name: []}}))
+    nss = [ns for ns in api.namespaces.values() if len(ns.routes) >= 2]
+    for _ in range(4 if full else 1):
+        if nss:
+            ns = rng.choice(nss)
+            rs = rng.sample(ns.routes, 2)
+            out.append(('random', {'route_whitelist': {ns.name: [route_repr(rng, r.name, r.version) for r in rs]},
+                                   'datatype_whitelist': {}}))
+    return out
+
+
+class FastFilter:
+    """The real parser once, then the real IRGenerator per whitelist on fresh lists of the same AST nodes (what
+    specs_to_ir does, minus building the parser tables again for every run). Whatever fails on this path is
+    evaluated again through specs_to_ir before it is reported."""
+
+    def __init__(self, specs):
+        from stone.frontend.parser import ParserFactory
+        pf = ParserFactory(debug=False)
+        self.asts = []
+        for path, text in specs:
+            p = pf.get_parser()
+            a = p.parse(text, path)
+            if p.got_errors_parsing():
+                raise ValueError('does not parse: %r' % (p.get_errors()[0],))
+            if a:
+                self.asts.append(a)
+
+    def run(self, wl):
+        from stone.frontend.ir_generator import IRGenerator
+        try:
+            return ('ok', IRGenerator([list(a) for a in self.asts], '0.1b1', debug=False,
+                                      route_whitelist_filter=json.loads(json.dumps(wl))).generate_IR())
+        except Exception as e:      # noqa: BLE001
+            return ('error', e)
+
+
+def suite_edge_grid(ck):
+    """graph.filter on the edge grid: one case = one root route whose only connection to its target types is one edge
+    (kind x written shape x holder x namespace). Every root route is whitelisted alone."""
+    from harness import core
+    full = ck.tier == 'thorough'
+    root = core.scratch('stone-verif-c20g-')
+    packages, fulls, deferred = [], {}, []
+    import_p = 1.0 if full else 0.3
+    for label, specs in edge_grid_specs():
+        try:
+            env = SpecEnv(label, specs)
+            fast = FastFilter(specs)
+        except Exception as e:      # noqa: BLE001 - the grid is written for the compiler as it is: a refusal is a finding about it
+            ck.disagree('graph.grid_specs', {'spec': label, 'specs': [list(x) for x in specs]}, [repr(e)[:300]], ['compiles'])
+            continue
+        ck.agree('graph.grid_specs')
+        ck.stat('graph.grid.specs')
+        kinds = {n['id']: n['kind'] for n in env.graph['nodes']}
+        reqs, pending = [], []
+        full_pkg = gen_package(env.api, root)
+        if full_pkg[0] != 'error':
+            fulls[label] = full_pkg
+        for plan, wl in plan_grid(ck.rng, env, full):
+            real = fast.run(wl)
+            problems, info = judge_filter(env, wl, real)
+            if problems or ck.rng.random() < 0.08:
+                # a failure is judged on what specs_to_ir itself returns; so is a sample of the others (and the two
+                # paths must retain the same items)
+                slow = run_real(env, wl)
+                if (real[0], slow[0]) == ('ok', 'ok'):
+                    if retained(real[1]) == retained(slow[1]):
+                        ck.agree('graph.grid.fastpath')
+                    else:
+                        ck.disagree('graph.grid.fastpath', {'spec': label, 'whitelist': wl, 'specs': env.specs},
+                                    _brief([sorted(x) for x in retained(slow[1])]), _brief([sorted(x) for x in retained(real[1])]))
+                real = slow
+                problems, info = judge_filter(env, wl, real)
+            ck.hist('graph.grid.plan', plan)
+            ck.hist('graph.grid.family', label.split(':')[1].split('/')[0])
+            if real[0] == 'ok' and info['wellformed']:
+                t, a, r = info['retained']
+                removed = (len(env.all_types) - len(t)) + (len(env.all_routes) - len(r))
+                ck.case(('grid', label, json.dumps(wl, sort_keys=True)), nontrivial=removed > 0 and (len(t) + len(r)) > 0)
+                ck.hist('graph.grid.outcome', 'ok')
+                for _p, k in info['closure'].values():
+                    ck.hist('graph.grid.closure_edge_kinds', k)
+            else:
+                ck.case(('grid', label, json.dumps(wl, sort_keys=True)), nontrivial=True)
+                ck.hist('graph.grid.outcome', 'raises:' + type(real[1]).__name__ if real[0] == 'error' else 'ill-formed')
+            for what, sig, detail in problems:
+                ck.failing_input(what, sig, {'suite': 'graph.filter', 'spec': label, 'specs': env.specs, 'whitelist': wl,
+                                             'detail': detail})
+            reqs.append(filter_request(env, wl))
+            pending.append((plan, wl, real, info, problems))
+            if real[0] == 'ok' and info['wellformed'] and label in fulls and plan in ('single-route', 'random') and \
+                    ck.rng.random() < import_p:
+                g = gen_package(real[1], root)
+                if g[0] == 'error':
+                    ck.failing_input('python_types fails on the filtered Api while it handles the full Api',
+                                     {'kind': 'generate-fails', 'exception': g[1]},
+                                     {'suite': 'graph.filter', 'spec': label, 'specs': env.specs, 'whitelist': wl, 'detail': g[2]})
+                else:
+                    packages.append((g[0], g[1], label, env, wl, sorted({w for w, _h, _t in dangling_scan(real[1])})))
+        slim = []
+        for plan, wl, real, info, problems in pending:
+            if real[0] == 'ok' and 'retained' not in info:
+                info['retained'] = retained(real[1])
+            slim.append((plan, wl, (real[0], None if real[0] == 'ok' else real[1]), info, problems))
+        deferred.append((env, kinds, slim, reqs))
+        if sum(len(d[3]) for d in deferred) >= 400:
+            _flush(ck, deferred)
+    _flush(ck, deferred)
+    # imports: one fresh interpreter for the whole grid
+    if fulls:
+        res = import_batch(root, [(p[0], p[1]) for p in fulls.values()] + [(p, m) for p, m, _l, _e, _w, _d in packages])
+        for pkg, _mods, label, env, wl, dang in packages:
+            if res[fulls[label][0]] is not None:
+                ck.stat('graph.import.full_api_not_importable')
+                continue
+            ck.stat('graph.import.cases')
+            if res[pkg] is None:
+                ck.stat('graph.import.ok')
+                continue
+            exc, text = res[pkg]
+            ck.failing_input('the module generated from the filtered Api does not import (%s) while the one generated '
+                             'from the full Api does' % exc, import_signature(exc, dang),
+                             {'suite': 'graph.filter', 'spec': label, 'specs': env.specs, 'whitelist': wl,
+                              'detail': {'exception': exc, 'message': text}})
+
+
+# ----------------------------------------------------------------------------------------------
+# the whitelist through the command line (stone.cli.main -r FILE), as users hand it in
+# ----------------------------------------------------------------------------------------------
+
+WL_BACKEND = '''from stone.backend import Backend
+CAPTURED = []
+class CaptureWl(Backend):
+    preserve_aliases = True
+    def generate(self, api):
+        CAPTURED.append(api)
+'''
+
+
+def run_cli(root, files, wl_path, flag):
+    """stone.cli.main in-process: ('ok', api the backend was handed) | ('exit', code | 'exception:<class>')"""
+    import contextlib
+    import io
+    from stone import cli
+    backend = os.path.join(root, 'capturewl.stoneg.py')
+    if not os.path.exists(backend):
+        with open(backend, 'w') as fh:
+            fh.write(WL_BACKEND)
+    old = sys.argv
+    sys.argv = ['stone-verif', backend, os.path.join(root, 'out')] + files + [flag, wl_path]
+    mod = sys.modules.get('capturewl_stoneg_py')
+    if mod is not None:
+        del mod.CAPTURED[:]
+    try:
+        with contextlib.redirect_stderr(io.StringIO()), contextlib.redirect_stdout(io.StringIO()):
+            cli.main()
+    except SystemExit as e:
+        return ('exit', e.code)
+    except Exception as e:      # noqa: BLE001 - an exception escaping main (an ill-formed whitelist is refused that way)
+        return ('exit', 'exception:%s' % type(e).__name__)
+    finally:
+        sys.argv = old
+    mod = sys.modules.get('capturewl_stoneg_py')
+    if mod is None or not mod.CAPTURED:
+        return ('exit', 'no-capture')
+    return ('ok', mod.CAPTURED[-1])
+
+
+def suite_cli_whitelist(ck, sources):
+    """stone.cli.main in-process with `--route-whitelist-filter FILE` and a capturing backend that keeps aliases: the
+    Api the backend is shown must be the one specs_to_ir(specs, route_whitelist_filter=...) returns, and it is judged
+    by the same oracles. A few whitelists per hand-written spec (thorough: per generated spec too)."""
+    from harness import core
+    root = core.scratch('stone-verif-c20cli-')
+    n = 0
+    for label, specs in sources:
+        if label.startswith('gen') and ck.tier != 'thorough':
+            continue
+        try:
+            env = SpecEnv(label, specs)
+        except Exception:      # noqa: BLE001 - counted by suite_filter
+            continue
+        n += 1
+        d = os.path.join(root, 's%d' % n)
+        os.makedirs(d, exist_ok=True)
+        files = []
+        for p, t in env.specs:
+            files.append(os.path.join(d, os.path.basename(p)))
+            with open(files[-1], 'w', encoding='utf-8') as fh:
+                fh.write(t)
+        plans = plan_whitelists(ck.rng, env, 8)
+        picked, seen = [], set()
+        for want in ('star-all', 'single-route', 'single-type', 'random', 'ill-formed'):
+            for plan, wl in plans:
+                if plan == want and plan not in seen:
+                    seen.add(plan)
+                    picked.append((plan, wl))
+        for k, (plan, wl) in enumerate(picked):
+            wl_path = os.path.join(d, 'wl%d.json' % k)
+            with open(wl_path, 'w', encoding='utf-8') as fh:
+                json.dump(wl, fh)
+            flag = ('-r', '--route-whitelist-filter', '--route-whitelist')[k % 3]
+            got = run_cli(d, files, wl_path, flag)
+            real = run_real(env, wl)
+            case = {'suite': 'graph.filter', 'via': 'stone.cli.main ' + flag, 'spec': label, 'specs': env.specs, 'whitelist': wl}
+            ck.case(('cli-wl', label, json.dumps(wl, sort_keys=True)), nontrivial=True)
+            ck.hist('graph.cli.plan', plan)
+            if got[0] == 'ok' and real[0] == 'ok':
+                a, b = retained(got[1]), retained(real[1])
+                if a == b:
+                    ck.agree('graph.cli')
+                else:
+                    ck.disagree('graph.cli', case, _brief([sorted(Reference.label(x) for x in s) for s in b]),
+                                _brief([sorted(Reference.label(x) for x in s) for s in a]))
+                problems, _info = judge_filter(env, wl, got)
+                for what, sig, detail in problems:
+                    ck.failing_input(what + ' (Api handed to the backend by stone.cli.main)', sig, dict(case, detail=detail))
+            elif got[0] != 'ok' and real[0] != 'ok':
+                want = 'exception:' + type(real[1]).__name__
+                if got[1] == want:
+                    ck.agree('graph.cli')
+                else:
+                    ck.disagree('graph.cli', case, want, list(got[:2]))
+            else:
+                ck.disagree('graph.cli', case, real[0] if real[0] == 'ok' else repr(real[1])[:200],
+                            'ok' if got[0] == 'ok' else list(got[:2]))
 
 
 # ----------------------------------------------------------------------------------------------
